@@ -171,3 +171,61 @@ func VerifForeign() {
 	vAssert(tt == StartTagToken && string(l.Text()) == "p", "element-after-foreign-content-lost")
 	vReach("foreign")
 }
+
+// VerifTemplate: text + "{{" + body + "}}" + <p>: the delimited region (quoted strings with
+// backslash escapes may contain the end delimiter) is inside exactly one token and the
+// following element is still seen.
+func VerifTemplate() {
+	n := vRange("n", 0, vParam("N", 3))
+	body := vBytes("b", n)
+	for i := range body {
+		c := body[i]
+		vAssume(c == '"' || c == '\'' || c == '\\' || c == '}' || c == 'a' || c == ' ')
+	}
+	src := append(append([]byte("x{{"), body...), "}}<p>"...)
+	// reference: end of the region = first "}}" outside a quoted string; inside a string a
+	// backslash escapes the next character
+	i := 3
+	end := -1
+	for i < len(src) {
+		c := src[i]
+		if c == '}' && i+1 < len(src) && src[i+1] == '}' {
+			end = i + 2
+			break
+		}
+		if c == '"' || c == '\'' {
+			j := i + 1
+			closed := false
+			for j < len(src) {
+				if src[j] == '\\' {
+					j += 2
+					continue
+				}
+				if src[j] == c {
+					closed = true
+					j++
+					break
+				}
+				j++
+			}
+			if !closed {
+				return // unterminated string: region runs to the end of input, no claim
+			}
+			i = j
+			continue
+		}
+		i++
+	}
+	if end < 0 || end > len(src)-3 {
+		return
+	}
+	vAssume(end == len(src)-3) // the region ends exactly at our closing delimiter
+	l := NewTemplateLexer(parse.NewInputBytes(append(make([]byte, 0, len(src)+1), src...)), GoTemplate)
+	tt, d := l.Next()
+	vAssert(tt == TextToken && string(d) == "x", "text-before-template")
+	tt, d = l.Next()
+	vAssert(tt == TemplateToken && len(d) == end-1 && l.HasTemplate(), "template-region-split")
+	tt, _ = l.Next()
+	vAssert(tt == StartTagToken && string(l.Text()) == "p", "element-after-template-lost")
+	vReach("template")
+}
